@@ -41,6 +41,12 @@ impl LspProject {
         }
     }
 
+    pub(crate) fn close_text_document(&mut self, url: &Url) {
+        if let Ok(path) = url.to_file_path() {
+            self.wrapped.close_text_document(&FileId::from_path(&path));
+        }
+    }
+
     pub(crate) fn tokenize(&self, url: &Url) -> Result<Vec<SemanticToken>, Vec<Diagnostic>> {
         let path = url.to_file_path();
         if let Ok(path) = path {
